@@ -596,7 +596,11 @@ func oracleSort(c Case) vkit.Outcome {
 	sort.Strings(wantPerm)
 	stable := append([]any(nil), input...)
 	sort.SliceStable(stable, func(i, j int) bool { return elemLess(stable[i], stable[j]) })
-	for which, g := range map[string]any{"returned array": got[0], "argument array (in place)": got[2]} {
+	for _, w := range []struct {
+		which string
+		g     any
+	}{{"returned array", got[0]}, {"argument array (in place)", got[2]}} {
+		which, g := w.which, w.g
 		vs, ok := plain(g).([]any)
 		if !ok {
 			return failf(out, sig+which+" is not an array", desc+": "+show(g), "array")
@@ -651,7 +655,11 @@ func oracleSortFunc(c Case) vkit.Outcome {
 	if got[1] != nil {
 		return failf(out, sig+"returns an error", desc+" error "+show(got[1]), "nil error")
 	}
-	for which, g := range map[string]any{"returned array": got[0], "argument array (in place)": got[2]} {
+	for _, w := range []struct {
+		which string
+		g     any
+	}{{"returned array", got[0]}, {"argument array (in place)", got[2]}} {
+		which, g := w.which, w.g
 		vs, ok := plain(g).([]any)
 		if !ok || len(vs) != len(keys) {
 			return failf(out, sig+"not a permutation of the input", fmt.Sprintf("%s: %s = %s", desc, which, show(g)), "a permutation of 0..n-1")
@@ -872,7 +880,7 @@ func oracleTimeFmt(c Case) vkit.Outcome {
 	sec, nsec, layout := c.Args[0].I, c.Args[1].I, c.Args[2].str()
 	tm := time.Unix(sec, nsec)
 	out.NonTrivial = true
-	out.Labels = []string{"time.Unix+Format layout=" + strconv.Quote(layout)}
+	out.Labels = []string{"time.Unix+Format"}
 	got, res := runEgo("\tt := time.Unix(a0, a1)\n\tr0 = t.Format(a2)\n\tr1 = t.String()", []any{sec, nsec, layout})
 	desc := fmt.Sprintf("time.Unix(%d, %d).Format(%q)", sec, nsec, layout)
 	if f := egoFailure(res); f != "" {
